@@ -1469,8 +1469,37 @@ func checkSchemeRewrite(c *Ctx, p *core.Prog) {
 	if len(sites) > 0 {
 		pos = p.Pos(sites[0].Pos())
 	}
+	// a rewrite written some other way (hand-rolled scan and copy): the function that does it is recognised by what it is
+	// - a string -> string function of the package that looks for the constant scheme - and only the clauses that do not
+	// depend on how it works are decided (who passes words through it); its idempotence is not
+	unknownShape := map[*ssa.Function]bool{}
 	if len(sites) == 0 {
-		okAll, why = false, "no replace-all of the https scheme is applied to a word before it is interned"
+		for _, fn := range fns {
+			if fn.Parent() != nil || len(fn.Params) != 1 || fn.Signature.Results().Len() != 1 || !isString(fn.Params[0].Type()) || !isString(fn.Signature.Results().At(0).Type()) {
+				continue
+			}
+			looks := false
+			for _, call := range core.CallsIn(fn) {
+				if !strings.HasPrefix(core.StaticCalleeName(call.Common()), "strings.") {
+					continue
+				}
+				for _, a := range call.Common().Args {
+					if sv, ok := core.ConstString(a); ok && sv == "https" {
+						looks = true
+					}
+				}
+			}
+			if looks {
+				unknownShape[fn] = true
+			}
+		}
+		if len(unknownShape) == 0 {
+			okAll, why = false, "no replace-all of the https scheme is applied to a word before it is interned"
+		} else {
+			for fn := range unknownShape {
+				c.R.Info("R06.4", "the scheme rewrite is repeated until nothing is left to rewrite", p.Pos(fn.Pos()), core.ShortFn(fn)+" rewrites the scheme in a way that is not one of the recognised shapes (replace-all loop, one regular-expression pass): that its result contains no \"https\" is not decided")
+			}
+		}
 	}
 	// the rewrite runs to a fixed point (removing an "s" can bring the next one up) ...
 	for _, cv := range sites {
@@ -1496,6 +1525,9 @@ func checkSchemeRewrite(c *Ctx, p *core.Prog) {
 		rewriteFn := map[*ssa.Function]bool{}
 		for _, cv := range sites {
 			rewriteFn[cv.Parent()] = true
+		}
+		for fn := range unknownShape {
+			rewriteFn[fn] = true
 		}
 		// wordThroughRewrite(f): every word f returns went through the rewrite (in f itself or in a helper it returns
 		// the result of); constants, table entries and the number path cannot contain the scheme
@@ -1565,6 +1597,9 @@ func checkSchemeRewrite(c *Ctx, p *core.Prog) {
 	}
 	if okAll {
 		why = fmt.Sprintf("%d strings.ReplaceAll site(s) on the word that is interned", len(sites))
+		if len(sites) == 0 {
+			why = "a hand-written rewrite function is applied to the word that is interned"
+		}
 	}
 	c.R.Check(okAll, "R06.4", "every occurrence of the https scheme inside a token is rewritten, idempotently", pos, why, why+": a URL whose scheme is not at the start of the token (e.g. \"(https://...\") is not normalised")
 }
